@@ -27,26 +27,25 @@ Proof.
 Qed.
 Print Assumptions C14_saturation.
 
-(** safe comparisons and in_range: the mathematical comparison, for all 64 type pairs *)
-Theorem C14_cmp : forall tt tu t u, WT tt -> WT tu -> in_ty tt t = true -> in_ty tu u = true ->
-  cmp_equal_m tt tu t u = cmp_equal_spec t u
-  /\ cmp_not_equal_m tt tu t u = cmp_not_equal_spec t u
-  /\ cmp_less_m tt tu t u = cmp_less_spec t u
-  /\ cmp_greater_m tt tu t u = cmp_greater_spec t u
-  /\ cmp_less_equal_m tt tu t u = cmp_less_equal_spec t u
-  /\ cmp_greater_equal_m tt tu t u = cmp_greater_equal_spec t u.
+(** safe comparisons for all 64 type pairs and in_range for all 64 (R, T) pairs: the mathematical
+    comparison of the two values / membership in the range of R *)
+Theorem C14_cmp :
+  (forall tt tu t u, WT tt -> WT tu -> in_ty tt t = true -> in_ty tu u = true ->
+     cmp_equal_m tt tu t u = cmp_equal_spec t u
+     /\ cmp_not_equal_m tt tu t u = cmp_not_equal_spec t u
+     /\ cmp_less_m tt tu t u = cmp_less_spec t u
+     /\ cmp_greater_m tt tu t u = cmp_greater_spec t u
+     /\ cmp_less_equal_m tt tu t u = cmp_less_equal_spec t u
+     /\ cmp_greater_equal_m tt tu t u = cmp_greater_equal_spec t u)
+  /\ (forall r tt t, WT r -> WT tt -> in_ty tt t = true -> in_range_m r tt t = in_range_spec r t).
 Proof.
-  exact (fun tt tu t u H1 H2 H3 H4 =>
+  exact (conj (fun tt tu t u H1 H2 H3 H4 =>
     conj (cmp_equal_ok tt tu t u H1 H2 H3 H4) (conj (cmp_not_equal_ok tt tu t u H1 H2 H3 H4)
     (conj (cmp_less_ok tt tu t u H1 H2 H3 H4) (conj (cmp_greater_ok tt tu t u H1 H2 H3 H4)
-    (conj (cmp_less_equal_ok tt tu t u H1 H2 H3 H4) (cmp_greater_equal_ok tt tu t u H1 H2 H3 H4)))))).
+    (conj (cmp_less_equal_ok tt tu t u H1 H2 H3 H4) (cmp_greater_equal_ok tt tu t u H1 H2 H3 H4))))))
+    in_range_ok).
 Qed.
 Print Assumptions C14_cmp.
-
-Theorem C14_in_range : forall r tt t, WT r -> WT tt -> in_ty tt t = true ->
-  in_range_m r tt t = in_range_spec r t.
-Proof. exact in_range_ok. Qed.
-Print Assumptions C14_in_range.
 
 (** midpoint: a + (b - a) / 2 rounded towards a, for every pair of values incl. the limits with
     opposite signs *)
@@ -55,29 +54,26 @@ Theorem C14_midpoint : forall t, WT t -> forall a b, in_ty t a = true -> in_ty t
 Proof. exact midpoint_ok. Qed.
 Print Assumptions C14_midpoint.
 
-(** gcd, lcm for all 64 (M, N) pairs: the non-negative gcd / lcm of |m| and |n| whenever it is a value
-    of the common type (the standard's domain) *)
-Theorem C14_gcd_lcm : forall tm tn m n, WT tm -> WT tn -> in_ty tm m = true -> in_ty tn n = true ->
-  (in_ty (common_type tm tn) (Z.gcd m n) = true -> gcd_m tm tn m n = Ok (gcd_spec m n))
-  /\ (in_ty (common_type tm tn) (Z.lcm m n) = true -> lcm_m tm tn m n = Ok (lcm_spec m n)).
-Proof. exact (fun tm tn m n H1 H2 H3 H4 => conj (gcd_ok tm tn m n H1 H2 H3 H4) (lcm_ok tm tn m n H1 H2 H3 H4)). Qed.
-Print Assumptions C14_gcd_lcm.
-
-(** abs, idiv, ipow, ipow<2>, ilog2: exact integer arithmetic whenever the result is representable *)
-Theorem C14_abs_idiv : forall t, WT t ->
-  (forall x, in_ty t x = true -> in_ty t (Z.abs x) = true -> abs_m t x = Ok (abs_spec x))
-  /\ (forall x y, in_ty t x = true -> in_ty t y = true -> y <> 0 -> in_ty t (Z.quot x y) = true ->
-      idiv_m t x y = Ok (idiv_spec x y)).
-Proof. exact (fun t HT => conj (abs_ok t HT) (idiv_ok t HT)). Qed.
-Print Assumptions C14_abs_idiv.
-
-Theorem C14_ipow_ilog2 : forall t, WT t ->
-  (forall b e, in_ty t b = true -> in_ty t e = true -> 0 <= e -> in_ty t (b ^ e) = true ->
-      ipow_m t b e = Ok (ipow_spec b e))
-  /\ (forall e, 0 <= e -> in_ty t (2 ^ e) = true -> ipow2_m t e = Ok (ipow_spec 2 e))
-  /\ (forall x, 1 <= x -> in_ty t x = true -> ilog2_m t x = Ok (ilog2_spec x)).
-Proof. exact (fun t HT => conj (ipow_ok t HT) (conj (ipow2_ok t HT) (ilog2_ok t HT))). Qed.
-Print Assumptions C14_ipow_ilog2.
+(** gcd, lcm for all 64 (M, N) pairs: the non-negative gcd / lcm of |m| and |n| whenever it is a value of the
+    common type (the standard's domain); abs, idiv, ipow, ipow<2>, ilog2: exact integer arithmetic whenever
+    the result is representable *)
+Theorem C14_numeric :
+  (forall tm tn m n, WT tm -> WT tn -> in_ty tm m = true -> in_ty tn n = true ->
+     (in_ty (common_type tm tn) (Z.gcd m n) = true -> gcd_m tm tn m n = Ok (gcd_spec m n))
+     /\ (in_ty (common_type tm tn) (Z.lcm m n) = true -> lcm_m tm tn m n = Ok (lcm_spec m n)))
+  /\ (forall t, WT t ->
+     (forall x, in_ty t x = true -> in_ty t (Z.abs x) = true -> abs_m t x = Ok (abs_spec x))
+     /\ (forall x y, in_ty t x = true -> in_ty t y = true -> y <> 0 -> in_ty t (Z.quot x y) = true ->
+         idiv_m t x y = Ok (idiv_spec x y))
+     /\ (forall b e, in_ty t b = true -> in_ty t e = true -> 0 <= e -> in_ty t (b ^ e) = true ->
+         ipow_m t b e = Ok (ipow_spec b e))
+     /\ (forall e, 0 <= e -> in_ty t (2 ^ e) = true -> ipow2_m t e = Ok (ipow_spec 2 e))
+     /\ (forall x, 1 <= x -> in_ty t x = true -> ilog2_m t x = Ok (ilog2_spec x))).
+Proof.
+  exact (conj (fun tm tn m n H1 H2 H3 H4 => conj (gcd_ok tm tn m n H1 H2 H3 H4) (lcm_ok tm tn m n H1 H2 H3 H4))
+              (fun t HT => conj (abs_ok t HT) (conj (idiv_ok t HT) (conj (ipow_ok t HT) (conj (ipow2_ok t HT) (ilog2_ok t HT)))))).
+Qed.
+Print Assumptions C14_numeric.
 
 (** rotl / rotr: every width, every value, EVERY count s (any integer, hence any int: negative, zero,
     multiples of the width, INT_MIN): the count is taken modulo the width, no shift is out of range;
@@ -103,23 +99,20 @@ Theorem C14_single_bit : forall w, W w -> forall word pos, 0 <= word < 2 ^ w -> 
 Proof. exact single_bit_all. Qed.
 Print Assumptions C14_single_bit.
 
-(** popcount (run-time builtin by its documented meaning; the portable "val &= val - 1" loop by induction)
-    and has_single_bit: every width, every value *)
-Theorem C14_popcount : forall w, W w -> forall x, 0 <= x < 2 ^ w ->
-  popcount_m w x = Ok (popcount_spec w x) /\ popcount_fallback_m w x = Ok (popcount_spec w x)
-  /\ has_single_bit_m w x = Ok (has_single_bit_spec x).
-Proof. exact pop_all. Qed.
-Print Assumptions C14_popcount.
-
-(** countl_zero/one (shift-left loops), countr_zero/one (test_bit loops), bit_width, bit_floor and bit_ceil
-    (both promotion branches; on the standard's domain x <= 2^(w-1)): every width, every value *)
-Theorem C14_count : forall w, W w -> forall x, 0 <= x < 2 ^ w ->
-  countl_zero_m w x = Ok (countl_zero_spec w x) /\ countl_one_m w x = Ok (countl_one_spec w x)
-  /\ countr_zero_m w x = Ok (countr_zero_spec w x) /\ countr_one_m w x = Ok (countr_one_spec w x)
-  /\ bit_width_m w x = Ok (bit_width_spec x) /\ bit_floor_m w x = Ok (bit_floor_spec x)
-  /\ (bit_ceil_dom w x = true -> bit_ceil_m w x = Ok (bit_ceil_spec x)).
-Proof. exact count_all. Qed.
-Print Assumptions C14_count.
+(** popcount (run-time builtin by its documented meaning; the portable "val &= val - 1" loop by induction),
+    has_single_bit, countl_zero/one (shift-left loops), countr_zero/one (test_bit loops), bit_width, bit_floor
+    and bit_ceil (both promotion branches; on the standard's domain x <= 2^(w-1); above it the code shifts by the
+    full width: undefined behaviour, never a wrong value): every width, every value *)
+Theorem C14_counts : forall w, W w -> forall x, 0 <= x < 2 ^ w ->
+  (popcount_m w x = Ok (popcount_spec w x) /\ popcount_fallback_m w x = Ok (popcount_spec w x)
+   /\ has_single_bit_m w x = Ok (has_single_bit_spec x))
+  /\ (countl_zero_m w x = Ok (countl_zero_spec w x) /\ countl_one_m w x = Ok (countl_one_spec w x)
+   /\ countr_zero_m w x = Ok (countr_zero_spec w x) /\ countr_one_m w x = Ok (countr_one_spec w x)
+   /\ bit_width_m w x = Ok (bit_width_spec x) /\ bit_floor_m w x = Ok (bit_floor_spec x)
+   /\ (bit_ceil_dom w x = true -> bit_ceil_m w x = Ok (bit_ceil_spec x))
+   /\ (bit_ceil_dom w x = false -> bit_ceil_m w x = UB BadShift)).
+Proof. exact (fun w HW x Hx => conj (pop_all w HW x Hx) (count_all w HW x Hx)). Qed.
+Print Assumptions C14_counts.
 
 (** byteswap for the eight types (run-time path: __builtin_bswapN by its documented meaning), the portable
     shift-and-mask fallbacks for 16/32/64 bits, and hton/ntoh for 8/16/32 bits: the bytes in reverse order *)
@@ -148,3 +141,15 @@ Example C14_nonvacuous :
   /\ rotl_m 8 129 (-2147483648) = Ok 129
   /\ rotl_m 64 9223372036854775809 (-1) = Ok 13835058055282163712.
 Proof. exact (conj WT_all nonvac_values). Qed.
+
+Example C14_nonvacuous_bits :
+  (W 8 /\ W 16 /\ W 32 /\ W 64)
+  /\ bit_ceil_dom 8 128 = true /\ bit_ceil_m 8 128 = Ok 128
+  /\ bit_ceil_dom 64 9223372036854775807 = true /\ bit_ceil_m 64 9223372036854775807 = Ok 9223372036854775808
+  /\ countl_zero_m 64 1 = Ok 63 /\ countl_one_m 8 254 = Ok 7 /\ countr_zero_m 64 0 = Ok 64
+  /\ popcount_fallback_m 64 18446744073709551615 = Ok 64
+  /\ flip_bit_m 64 0 63 = Ok 9223372036854775808 /\ test_bit_m 64 0 64 = Contract
+  /\ in_ty i16 (-256) = true /\ byteswap_m i16 (-256) = Ok 255
+  /\ byteswap_fallback_m 64 72623859790382856 = Ok 578437695752307201
+  /\ hton_m 32 305419896 = Ok 2018915346.
+Proof. exact (conj W_all nonvac_bits). Qed.
